@@ -797,6 +797,8 @@ void SLUFactor<R>::clear()
    this->l.size        = 100;
    this->l.startSize   = 100;
 
+   this->l.rval.clear();
+
    if(this->l.ridx)
       spx_free(this->l.ridx);
 
@@ -1006,7 +1008,7 @@ void SLUFactor<R>::assign(const SLUFactor<R>& old)
    memcpy(this->l.start, old.l.start, (unsigned int)this->l.startSize * sizeof(*this->l.start));
    memcpy(this->l.row,   old.l.row, (unsigned int)this->l.startSize * sizeof(*this->l.row));
 
-   if(!this->l.rval.empty())
+   if(!old.l.rval.empty())
    {
       assert(old.l.ridx  != nullptr);
       assert(old.l.rbeg  != nullptr);
@@ -1034,6 +1036,7 @@ void SLUFactor<R>::assign(const SLUFactor<R>& old)
       assert(old.l.rorig == nullptr);
       assert(old.l.rperm == nullptr);
 
+      this->l.rval.clear();
       this->l.ridx  = nullptr;
       this->l.rbeg  = nullptr;
       this->l.rorig = nullptr;
